@@ -510,7 +510,24 @@ pub fn run_history(rng: &mut Rng, cfg: &HistCfg, dir: &Path, tag: &str) -> HistR
                 let pred = if !d.rollbacks.is_empty() { "rolled-back-then-refused" } else if w.log[idx].kind == PubKind::Proposal && parts == vec!["PEND"] { "proposal-queued-then-refused" } else { "no-rollback" };
                 mon.find(
                     "C06",
-                    if pred == "rolled-back-then-refused" { format!("C06|refused-but-changed|history:{:?}|{pred}", w.log[idx].kind) } else { format!("C06|refused-but-changed|history:{:?}|parts={}|{pred}|result={}", w.log[idx].kind, parts.join("+"), d.class) },
+                    if pred == "rolled-back-then-refused" {
+                        // why was it refused after the rollback it caused? (computed from the history, so
+                        // that a rollback which LOSES something that had been there is not mistaken for
+                        // the known "rollback happens before validation" finding)
+                        let refs = &w.log[idx].refs;
+                        let c = &w.clients[m];
+                        let missing = refs.iter().any(|r| w.log[*r].author != m && !matches!(c.first_result.get(r).map(|s| s.as_str()), Some("PendingProposal") | Some("Proposal(auto-commit)")));
+                        let why = if d.class == "Err(CommitFromNonAdmin)" {
+                            "commit-not-authorised"
+                        } else if missing {
+                            "references-proposal-that-never-entered-the-queue"
+                        } else if !refs.is_empty() {
+                            "references-proposals-that-had-been-queued"
+                        } else {
+                            "other"
+                        };
+                        format!("C06|refused-but-changed|history:{:?}|{pred}|{why}", w.log[idx].kind)
+                    } else { format!("C06|refused-but-changed|history:{:?}|parts={}|{pred}|result={}", w.log[idx].kind, parts.join("+"), d.class) },
                     format!("c{m} answered e{idx} ({:?} by m{}: {}) with {} but {which} changed in {:?}", w.log[idx].kind, w.log[idx].author, w.log[idx].what, d.class, parts),
                 );
             }
@@ -680,8 +697,9 @@ fn judge_c01(w: &World, g: usize, chain: &[usize], states: &[StateKey], reached_
         let clause = if !active { "inactive-but-member" } else if c.state(g, &gid) == final_state { "same-mls-state-different-view" } else { "diverged" };
         let parts = if active { mfp_parts(&mfp, &ofp) } else { "state".to_string() };
         // one explanatory predicate per signature, by priority; the rest only in the detail
-        const PRIORITY: [&str; 9] = [
+        const PRIORITY: [&str; 10] = [
             "fork-deeper-than-retention",
+            "winner-refused-after-rollback-proposal-arrived-after-leaving-the-epoch",
             "rotated-nostr-id-on-losing-branch",
             "earlier-invalid-commit-forces-rollback",
             "immediate-merge-lost-race",
@@ -756,8 +774,19 @@ fn classify_divergence(w: &World, ci: usize, g: usize, chain: &[usize], states: 
             last = Some(i);
         }
     }
-    if !c.rollback_then_refused.is_empty() {
-        preds.insert("earlier-invalid-commit-forces-rollback".into());
+    // events that made M roll back and were then refused
+    for idx in &c.rollback_then_refused {
+        if !chain.contains(idx) {
+            // a commit that is NOT on the canonical chain (validation refuses it everywhere)
+            preds.insert("earlier-invalid-commit-forces-rollback".into());
+        } else {
+            // the MIP-03 winner itself was refused after the rollback it caused. If M never had the
+            // proposals it carries by reference in its queue (they reached M only after M had left
+            // that epoch on the losing branch) that is the known late-proposal limitation;
+            // otherwise the rollback lost something that had been there: unexplained.
+            let had_all = w.log[*idx].refs.iter().all(|p| w.log[*p].author == ci || matches!(c.first_result.get(p).map(|s| s.as_str()), Some("PendingProposal") | Some("Proposal(auto-commit)")));
+            preds.insert(if had_all { "winner-refused-after-rollback-with-its-proposals-queued-before".to_string() } else { "winner-refused-after-rollback-proposal-arrived-after-leaving-the-epoch".to_string() });
+        }
     }
     // M applied (on echo or by merging) an own commit that the library's validation refuses at
     // every other member (seen at the oracle replica)
@@ -872,6 +901,16 @@ fn classify_divergence(w: &World, ci: usize, g: usize, chain: &[usize], states: 
 // C02: application messages of the winning branch: exactly once, intact, valid
 // --------------------------------------------------------------------------------------------
 
+/// the wrapper's `h` tag names a nostr group id different from the one this client routed the
+/// group by when the event was first offered to it (i.e. the id had been rotated away)
+fn carries_other_nid(c: &Client, idx: usize, p: &Pub) -> bool {
+    let h = p.ev.tags.iter().find(|t| t.kind() == nostr::TagKind::h()).and_then(|t| t.content().map(|s| s.to_string()));
+    match (h, c.first_offer_nid.get(&idx)) {
+        (Some(h), Some(Some(nid))) => h != hex::encode(nid),
+        _ => false,
+    }
+}
+
 fn judge_c02(w: &World, g: usize, _chain: &[usize], states: &[StateKey], sim: &SimCfg, mon: &mut Mon) {
     let Some(o) = w.groups[g].oracle else { return };
     let gid = w.gid(g);
@@ -922,7 +961,7 @@ fn judge_c02(w: &World, g: usize, _chain: &[usize], states: &[StateKey], sim: &S
                 if copies != 1 {
                     let first = c.first_result.get(&idx).cloned().unwrap_or("never-offered".into());
                     let st_at_first = c.first_offer_state.get(&idx).cloned().flatten();
-                    let pred = if first == "Err(GroupNotFound)" {
+                    let pred = if first == "Err(GroupNotFound)" && carries_other_nid(c, idx, p) {
                         // the wrapper carries the nostr group id in force when it was created; the
                         // receiver had already applied a rotation
                         "tagged-with-retired-nostr-id"
@@ -948,7 +987,7 @@ fn judge_c02(w: &World, g: usize, _chain: &[usize], states: &[StateKey], sim: &S
                 let valid = if p.author == ci { m.state == message_types::MessageState::Processed } else { m.state == message_types::MessageState::Processed };
                 if !valid {
                     let st_at_first = c.first_offer_state.get(&idx).cloned().flatten();
-                    let pred = if p.author == ci && m.state == message_types::MessageState::Created && c.first_result.get(&idx).map(|x| x == "Err(GroupNotFound)").unwrap_or(false) {
+                    let pred = if p.author == ci && m.state == message_types::MessageState::Created && c.first_result.get(&idx).map(|x| x == "Err(GroupNotFound)").unwrap_or(false) && carries_other_nid(c, idx, p) {
                         "own-echo-tagged-with-retired-nostr-id"
                     } else if p.author == ci && m.state == message_types::MessageState::Created {
                         "own-copy-not-confirmed"
